@@ -216,7 +216,7 @@ PROPS = {
     ),
     "C08": dict(
         level="proof", extra=["atomic_audit", "threads"], coq_files=["Properties/C08.v"],
-        theorems={"Properties/C08.v": ["C08_conservation", "C08_in_flight", "C08_drops_only_where_allowed"]},
+        theorems={"Properties/C08.v": ["C08_conservation", "C08_in_flight", "C08_drops_only_where_allowed", "C08_drops_placed"]},
         runs=MPMC_RUNS, keys=["r", "v", "p"], monitor=dict(id=8, runs=["mpmc-c0", "mpmc-c1", "mpmc-c2", "mpmc-shared-c1"]),
         assumptions=[SCHED_NOTE, "values uniquely tagged"],
         level_text="Theorem over all histories (any number of send/receive futures, any capacity incl. 0, close, cancel, try-ops, shared handle drops): the conservation monitor over the observable trace holds - every observed movement (delivered / handed back / destroyed) concerns a value still in flight and removes it, nothing is left after teardown; the in-flight set of the trace equals buffer + values inside live send futures; values are destroyed only with their send future, by the last receiver's clear(), or at teardown. Correspondence on results, per-step value movements (drop-counting tagged payloads, double drops detected) and closed/len probes, for ArrayBuf, FixedHeapBuf, GrowingHeapBuf, borrowed and shared.",
@@ -240,11 +240,11 @@ PROPS = {
     ),
     "C11": dict(
         level="proof", extra=["atomic_audit", "threads"], coq_files=["Properties/C11.v", "Properties/C11b.v", "Properties/C13.v"],
-        theorems={"Properties/C11.v": ["C11_close_status", "C11_closed_monotone", "C11_send_after_close", "C11_close_wakes_all", "C11_drain_then_none", "C11_implicit_close", "C11_last_receiver_clears"],
+        theorems={"Properties/C11.v": ["C11_close_status", "C11_closed_monotone", "C11_send_after_close", "C11_close_wakes_all", "C11_close_wakes_trace", "C11_drain_then_none", "C11_implicit_close", "C11_last_receiver_clears"],
                   "Properties/C11b.v": ["C11b_close_status", "C11b_closed_monotone", "C11b_implicit_close", "C11b_refuted_pinned"],
                   "Properties/C13.v": ["C11c_close_status", "C11c_closed_monotone", "C11c_implicit_close"]},
         runs=MPMC_RUNS + ONESHOT_RUNS + STATE_RUNS, keys=["r", "w", "p", "v"], assumptions=[SCHED_NOTE],
-        monitor=dict(id=11, runs=["bcast-shared", "oneshot-shared", "state-shared", "mpmc-shared-c1", "mpmc-shared-c0"]),
+        monitor=dict(id=11, runs=["bcast-shared", "oneshot-shared", "state-shared", "mpmc-shared-c1", "mpmc-shared-c0", "mpmc-c0", "mpmc-c1"]),
         level_text="Theorems for mpmc, oneshot, oneshot-broadcast and state-broadcast models: close is permanent/idempotent (NewlyClosed once), sends after close fail returning the caller's value, every queued future is woken and unlinked, receivers drain the buffer in order then None/Closed; implicit close: for every interleaving of the atomic sections of clone/drop of any number of handles, without explicit close the channel is closed iff a side has no handle left (never while both sides have one); last mpmc receiver clears the buffer; plus a machine-checked refutation for the pre-repair broadcast receiver (finding D3). Correspondence on close status, results, wakes, value movements over all clone/drop orders of up to 3 handles.",
         level_note="Handle-count atomics' memory orderings are assumed; interleavings are of whole atomic sections. " + SCHED_NOTE,
     ),
@@ -257,7 +257,7 @@ PROPS = {
     ),
     "C13": dict(
         level="proof", extra=["atomic_audit", "threads"], coq_files=["Properties/C13.v"],
-        theorems={"Properties/C13.v": ["C13_protocol", "C13_send", "C13_ids_bounded", "C13_wakes_all", "C13_queue_exact", "C13_after_close"]},
+        theorems={"Properties/C13.v": ["C13_protocol", "C13_ids_move_only_with_send", "C13_send", "C13_ids_bounded", "C13_wakes_all", "C13_queue_exact", "C13_after_close"]},
         runs=STATE_RUNS, keys=["r", "w", "p", "v"], monitor=dict(id=13, runs=["state-local", "state-shared"]), assumptions=[SCHED_NOTE],
         level_text="Theorem over all histories: the state-broadcast monitor holds on the trace (ids strictly increase, sends rejected only when closed or at u64::MAX and return their value; receive/try_receive complete only with the latest state and its id and only if newer than requested; None only after close for up-to-date receivers; waiting receivers woken by the next send or close). The u64::MAX arm is reached in the correspondence through a cfg-guarded hook presetting the id.",
         level_note=SCHED_NOTE,
